@@ -128,7 +128,10 @@ class Ctx:
         self.tier = tier
         self.seed = seed
         self.t0 = time.time()
-        self.build = ROOT / "build" / pid
+        # runs against a scratch copy of the repository get their own build directory so that they
+        # cannot disturb (or be disturbed by) a run against /repo itself
+        tag = "" if str(REPO) == "/repo" else "-scratch-" + hashlib.blake2b(str(REPO).encode(), digest_size=4).hexdigest()
+        self.build = ROOT / "build" / (pid + tag)
         self.build.mkdir(parents=True, exist_ok=True)
         self.obligations: list[dict] = []
         self.evaluations = 0
